@@ -5,6 +5,8 @@ Line-protocol driver for the pure numeric models.   lake env lean --run Driver/P
   index <n> {<priceBits> <shares>}*           -> V <bits>          (Float instance, C17)
   ledger … / logger …                         -> holdings after folding the fills (C05) / delivered | pending (C10)
   genpath <p0> {rbits}*                       -> V {bits}*          (chunk of a fundamental path, C12)
+  fsched <chunk> {R <time> | C <t> <version> | S <t>}*  -> V {g after each op}* | {version of step u, u = 0..g}*
+                                              (regeneration bookkeeping, PamsModel/FundSched.lean, C12)
   fcn / mm / arb ...                          -> V … orders         (Float instance of the agent formulas, C20)
 -/
 import Driver.Proto
@@ -12,6 +14,7 @@ import PamsModel.Tick
 import PamsModel.Index
 import PamsModel.Agents
 import PamsModel.Fundamentals
+import PamsModel.FundSched
 import PamsModel.Ledger
 import PamsModel.Logger
 
@@ -88,6 +91,21 @@ def stepLine (line : String) : List String :=
     decreasing_by all_goals (simp_all; try omega)
     let st := Pams.Logger.run ({ pending := [], delivered := [] } : Pams.Logger.LState Nat) (ops rest)
     ["V" ++ String.join (st.delivered.map (fun x => s!" {x}")) ++ " |" ++ String.join (st.pending.map (fun x => s!" {x}"))]
+  | "fsched" :: chunk :: rest =>
+    let rec fops : List String → List (Pams.FundS.Op Nat)
+      | "R" :: t :: more => .read t.toNat! :: fops more
+      | "C" :: t :: v :: more => .change t.toNat! (fun _ => v.toNat!) :: fops more
+      | "S" :: t :: more => .shock t.toNat! :: fops more
+      | _ => []
+    let rec go (s : Pams.FundS.St Nat) : List (Pams.FundS.Op Nat) → List Nat × Pams.FundS.St Nat
+      | [] => ([], s)
+      | op :: more =>
+        let s' := s.step op
+        let r := go s' more
+        (s'.g :: r.1, r.2)
+    let r := go (Pams.FundS.init 0 chunk.toNat!) (fops rest)
+    ["V" ++ String.join (r.1.map (fun x => s!" {x}")) ++ " |" ++
+      String.join ((r.2.prov.take (r.2.g + 1)).map (fun x => s!" {x}"))]
   | "genpath" :: p0 :: rest =>
     let rs := rest.map fl
     ["V" ++ String.join ((Pams.Fund.genPath (fl p0) rs).map (fun x => s!" {x.toBits.toNat}"))]
